@@ -10,7 +10,7 @@
      - files only:            X = the file events.
    The chain delivers `delivered c X` (no stop reached), or `fst (upto_stop c X)` and ends with stop-block-reached.
    Final blocks only: the filter is stateful (fix "each final block once", Model/Joining.chain_fin): it drops a passing
-   event numbered at or below the last one it forwarded; the chain then runs over `undup c None X`, X without the
+   event numbered at or below the last one it forwarded; the chain then runs over `undup c (start_mem c) X`, X without the
    events the filter's memory drops (`seen c X`).
    This is C13's "filters only remove ... in unchanged order" and "stop block" clauses over whole runs for EVERY
    filter, stop block, mode, world and schedule (no hypothesis), and the basis of the C07 theorems for non-default
@@ -51,7 +51,7 @@ Fixpoint undup (c : jcfg) (lf : option N) (l : list event) : list event :=
   end.
 
 (* the part of a raw sequence the handler chain of c works on *)
-Definition seen (c : jcfg) (X : list event) : list event := if j_filter c =? 1 then undup c None X else X.
+Definition seen (c : jcfg) (X : list event) : list event := if j_filter c =? 1 then undup c (start_mem c) X else X.
 
 (* the argument checks of Stream.Run *)
 Definition run_rejected (c : jcfg) (w : world) : bool :=
